@@ -115,6 +115,17 @@ func (r *GRPCResponseExpr) Validate(e *GRPCEndpointExpr) *eval.ValidationErrors 
 			// result attributes have "rpc:tag" set
 			verr.Merge(validateRPCTags(robj, e))
 		}
+		if hasMessage || hasHeaders || hasTrailers {
+			// the result attributes that are not sent as headers or trailers end up
+			// in the response message: they need field numbers too
+			msgFields := &Object{}
+			for _, nat := range *robj {
+				if AsObject(r.Headers.Type).Attribute(nat.Name) == nil && AsObject(r.Trailers.Type).Attribute(nat.Name) == nil {
+					msgFields.Set(nat.Name, nat.Attribute)
+				}
+			}
+			verr.Merge(validateRPCTags(msgFields, e))
+		}
 	} else {
 		switch {
 		case hasMessage && hasHeaders:
